@@ -287,13 +287,21 @@ def r07_5(ctx):
     nl = node_loops[0]
     paths = enum_paths(nl.body, rule="R07.5", where=run.where(nl))
     bad = None
+    loop_locals = {st.targets[0].id for st in walk_stmts(nl.body) if isinstance(st, ast.Assign) and len(st.targets) == 1 and isinstance(st.targets[0], ast.Name) and isinstance(st.value, (ast.List, ast.BinOp, ast.JoinedStr, ast.Call))}
+    color_holes = []
     for p in paths:
         rows = [e.node.value for e in p.events if e.kind == "stmt" and isinstance(e.node, ast.Expr) and isinstance(e.node.value, ast.Call) and isinstance(e.node.value.func, ast.Attribute) and e.node.value.func.attr == "write"]
         if p.term not in ("fall", "continue") or len(rows) != 1:
             bad = (p, f"{len(rows)} CSV rows for one node")
             break
-        parts = tmpl.of_expr(rows[0].args[0])
+        b_ = tmpl.Builder(track_vars=sorted(loop_locals))
+        for e in p.events:
+            if e.kind == "stmt" and isinstance(e.node, ast.Expr) and e.node.value is rows[0]:
+                break
+            b_.feed(e)
+        parts = tmpl.of_expr(rows[0].args[0], b_._env())
         holes = [norm(h[1]) for h in tmpl.holes(parts)]
+        color_holes.append([h[1] for h in tmpl.holes(parts)][1] if len(holes) == 6 else None)
         stores = {const_value(e.node.targets[0].slice): norm(e.node.value.elts[1]) for e in p.events if e.kind == "stmt" and isinstance(e.node, ast.Assign) and isinstance(e.node.targets[0], ast.Subscript) and ".tags" in norm(e.node.targets[0].value) and isinstance(e.node.value, ast.Tuple)}
         if len(holes) != 6 or holes[0] != norm(nl.target) or holes[4] != stores.get("BO") or holes[5] != stores.get("NO"):
             bad = (p, f"CSV row {holes} does not carry the node id and the BO/NO values stored on the node ({stores})")
@@ -304,12 +312,26 @@ def r07_5(ctx):
             break
     ctx.check(bad is None, "R07.5", run.where(nl), "every node of the component writes exactly one CSV row (name, role colour, SN, SO, BO, NO) whose BO/NO are the values stored on the node in the same iteration", key_of(run, f"csv-row:{bad[1] if bad else ''}"), paths=len(paths), **({"path": bad[0].show(), "why": bad[1]} if bad else {}))
     # role column from membership in the scaffold / inside sets returned by the ordering function
-    roles = [st for st in nl.body if isinstance(st, ast.If) and " in " in norm(st.test)]
-    ok = False
-    if roles:
-        t1 = norm(roles[0].test)
-        ok = any(t1 == f"{norm(nl.target)} in {x}" for x in m.targets)
-    ctx.check(ok, "R07.5", run.where(nl), "the role column derives from membership in the scaffold / bubble sets returned by the decomposition", key_of(run, "csv-role"))
+    # the membership tests that decide it: in the loop body, or in the helper that computes the colour hole
+    tests = []
+    mapping = {}
+    ch = next((h for h in color_holes if h is not None), None)
+    helper = ctx.repo.resolve_call(run, ch) if isinstance(ch, ast.Call) else None
+    if helper is not None:
+        ctx.analysed_func(helper)
+        mapping = {p_: norm(a) for p_, a in zip(helper.params, ch.args)}
+        for k in ch.keywords:
+            mapping[k.arg] = norm(k.value)
+        region = list(walk_own(helper.node))
+    else:
+        region = [x for st in nl.body for x in ast.walk(st)]
+    for x in region:
+        if isinstance(x, ast.Compare) and len(x.ops) == 1 and isinstance(x.ops[0], (ast.In, ast.NotIn)) and isinstance(x.left, ast.Name) and isinstance(x.comparators[0], ast.Name):
+            tests.append((mapping.get(x.left.id, x.left.id), mapping.get(x.comparators[0].id, x.comparators[0].id)))
+    if not tests:
+        raise AnalysisError("R07.5", run.where(nl), "cannot find how the role colour of a CSV row is decided")
+    ok = all(l == norm(nl.target) and r in m.targets for l, r in tests)
+    ctx.check(ok, "R07.5", run.where(nl), "the role column derives from membership in the scaffold / bubble sets returned by the decomposition", key_of(run, f"csv-role:{tests}"))
     it = norm(nl.iter)
     comp = norm(m.arg_of_param.get(m.dec.params[1]))
     ctx.check(comp in it, "R07.5", run.where(nl), "the CSV loop runs over all nodes of the component", key_of(run, f"csv-iter:{it}"))
